@@ -251,6 +251,7 @@ class Interp:
         self.phi_hook = None
         self.solver_timeout_ms = 600000
         self.lazy_feasibility = False   # True: every symbolic branch forks (no solver call); infeasible paths are the harness's business
+        self.hard_feasibility = False   # affine interpreter: decide lazy feasibility queries in a child process with a hard deadline
         self.keep_after_lifetime_end = False   # harnesses that inspect a local object after the function returned
         self.max_call_depth = 200
         self.external_handler = None
